@@ -664,6 +664,18 @@ def run_scenario(case: dict, choices: List[int]) -> _Run:
 
             old = S3.DelayedS3Writer(_mpu_cls()(BUCKET, KEY), kw)
             ctx.vars[old._build_name("MPUpload")] = "abandoned-upload-id"
+        if case.get("earlier_upload"):
+            # history: the same object was already written once in this process (and on this cluster), start to
+            # finish; whatever that left behind must not be mistaken for the new upload
+            from odc.geo.cog import _s3 as S3
+
+            prev_mpu = _mpu_cls()(BUCKET, KEY)
+            prev = prev_mpu.writer(kw, client=ctx.client) if mode != "local" else prev_mpu.writer(kw)
+            rec = prev(2, b"earlier upload of the same object" * 200)
+            prev.finalise([rec])
+            if not any(c["op"] == "complete" for c in ctx.s3.calls):
+                raise HarnessError("earlier upload did not complete")
+            ctx.s3.calls.clear()
         mpu = _mpu_cls()(BUCKET, KEY)
         late = bool(case.get("late_client")) and mode != "local"
         if late:
@@ -857,7 +869,8 @@ def s_sched(draw):
         choices = [c for c, n in runs for _ in range(n)]
     stale = mode != "local" and draw(st.integers(0, 3)) == 0
     return {"mode": mode, "share": share, "writes": writes, "fin": fin, "explicit_client": explicit, "choices": choices,
-            "stale": stale, "late_client": mode != "local" and not stale and draw(st.integers(0, 3)) == 0}
+            "stale": stale, "late_client": mode != "local" and not stale and draw(st.integers(0, 3)) == 0,
+            "earlier_upload": not stale and draw(st.integers(0, 4)) == 0}
 
 
 def o_sched(case, T):
@@ -870,6 +883,8 @@ def o_sched(case, T):
         T.cls("stale_shared_variable_from_abandoned_upload")
     if case.get("late_client") and case["mode"] != "local":
         T.cls("writer_built_before_the_client_existed")
+    if case.get("earlier_upload"):
+        T.cls("same_object_uploaded_earlier_in_this_process")
     T.cls("workers_%d" % len(case["share"]))
     T.cls("fin_none" if case["fin"] < 0 else ("fin_fresh" if case["fin"] >= len(case["share"]) else "fin_worker"))
 
@@ -881,6 +896,7 @@ DFS_SETUPS = [  # measured size of the complete tree on the repaired code: 5180,
     {"mode": "cluster", "share": [0, 1], "writes": [1, 1], "fin": 2, "explicit_client": True},
     {"mode": "cluster_shared", "share": [0, 0], "writes": [1, 1], "fin": 2, "explicit_client": False},
     {"mode": "cluster", "share": [0, 1], "writes": [1, 1], "fin": 2, "explicit_client": True, "late_client": True},
+    {"mode": "local", "share": [0, 0], "writes": [1, 1], "fin": 2, "explicit_client": True, "earlier_upload": True},
 ]
 DFS_SETUPS_THOROUGH = DFS_SETUPS + [  # 61050, 482, 964 schedules
     {"mode": "local", "share": [0, 0], "writes": [2, 1], "fin": 0, "explicit_client": True},
